@@ -9,7 +9,8 @@ package value
 // no nil element.
 //@ pred TVWf(v *pb.TypedValue) := v == nil || v.Value == nil || (payload(v.Value) != nil
 //@   && (isa(v.Value.(*pb.TypedValue_DecimalVal)) ==> v.Value.(*pb.TypedValue_DecimalVal).DecimalVal != nil)
-//@   && (isa(v.Value.(*pb.TypedValue_LeaflistVal)) ==> v.Value.(*pb.TypedValue_LeaflistVal).LeaflistVal != nil))
+//@   && (isa(v.Value.(*pb.TypedValue_LeaflistVal)) ==> v.Value.(*pb.TypedValue_LeaflistVal).LeaflistVal != nil
+//@        && (forall i int :: 0 <= i && i < len(v.Value.(*pb.TypedValue_LeaflistVal).LeaflistVal.Element) ==> v.Value.(*pb.TypedValue_LeaflistVal).LeaflistVal.Element[i] != nil)))
 //@ pred AllTVWf() := forall v *pb.TypedValue :: TVWf(v)
 //@ pred ListOf(v *pb.TypedValue) := v.Value.(*pb.TypedValue_LeaflistVal).LeaflistVal.Element
 
@@ -40,3 +41,36 @@ package value
 //@   requires AllTVWf()
 //@   invariant 0: [prefix-equal] forall j int :: 0 <= j && j < $i ==> valueEq(ae[j], be[j])
 //@   ensures [decides-valueEq C19] res0 <==> valueEq(a, b)
+
+// utf8.ValidString is a predicate of the string.
+//@ spec validUTF8(string) bool
+
+// FromScalar: one arm per Go scalar kind, carrying the widened value.
+//@ func FromScalar
+//@   props C19 C12
+//@   ensures [string C19] isa(i.(string)) ==> (res1 == nil <==> validUTF8(i.(string)))
+//@     && (res1 == nil ==> res0 != nil && isa(res0.Value.(*pb.TypedValue_StringVal)) && payload(res0.Value) != nil && res0.Value.(*pb.TypedValue_StringVal).StringVal == i.(string))
+//@   ensures [int C19] isa(i.(int)) ==> res1 == nil && res0 != nil && isa(res0.Value.(*pb.TypedValue_IntVal)) && payload(res0.Value) != nil && res0.Value.(*pb.TypedValue_IntVal).IntVal == i.(int)
+//@   ensures [int8 C19] isa(i.(int8)) ==> res1 == nil && res0 != nil && isa(res0.Value.(*pb.TypedValue_IntVal)) && payload(res0.Value) != nil && res0.Value.(*pb.TypedValue_IntVal).IntVal == i.(int8)
+//@   ensures [int16 C19] isa(i.(int16)) ==> res1 == nil && res0 != nil && isa(res0.Value.(*pb.TypedValue_IntVal)) && payload(res0.Value) != nil && res0.Value.(*pb.TypedValue_IntVal).IntVal == i.(int16)
+//@   ensures [int32 C19] isa(i.(int32)) ==> res1 == nil && res0 != nil && isa(res0.Value.(*pb.TypedValue_IntVal)) && payload(res0.Value) != nil && res0.Value.(*pb.TypedValue_IntVal).IntVal == i.(int32)
+//@   ensures [int64 C19] isa(i.(int64)) ==> res1 == nil && res0 != nil && isa(res0.Value.(*pb.TypedValue_IntVal)) && payload(res0.Value) != nil && res0.Value.(*pb.TypedValue_IntVal).IntVal == i.(int64)
+//@   ensures [uint C19] isa(i.(uint)) ==> res1 == nil && res0 != nil && isa(res0.Value.(*pb.TypedValue_UintVal)) && payload(res0.Value) != nil && res0.Value.(*pb.TypedValue_UintVal).UintVal == i.(uint)
+//@   ensures [uint8 C19] isa(i.(uint8)) ==> res1 == nil && res0 != nil && isa(res0.Value.(*pb.TypedValue_UintVal)) && payload(res0.Value) != nil && res0.Value.(*pb.TypedValue_UintVal).UintVal == i.(uint8)
+//@   ensures [uint16 C19] isa(i.(uint16)) ==> res1 == nil && res0 != nil && isa(res0.Value.(*pb.TypedValue_UintVal)) && payload(res0.Value) != nil && res0.Value.(*pb.TypedValue_UintVal).UintVal == i.(uint16)
+//@   ensures [uint32 C19] isa(i.(uint32)) ==> res1 == nil && res0 != nil && isa(res0.Value.(*pb.TypedValue_UintVal)) && payload(res0.Value) != nil && res0.Value.(*pb.TypedValue_UintVal).UintVal == i.(uint32)
+//@   ensures [uint64 C19] isa(i.(uint64)) ==> res1 == nil && res0 != nil && isa(res0.Value.(*pb.TypedValue_UintVal)) && payload(res0.Value) != nil && res0.Value.(*pb.TypedValue_UintVal).UintVal == i.(uint64)
+//@   ensures [float64 C19] isa(i.(float64)) ==> res1 == nil && res0 != nil && isa(res0.Value.(*pb.TypedValue_DoubleVal)) && payload(res0.Value) != nil && same(res0.Value.(*pb.TypedValue_DoubleVal).DoubleVal, i.(float64))
+//@   ensures [bool C19] isa(i.(bool)) ==> res1 == nil && res0 != nil && isa(res0.Value.(*pb.TypedValue_BoolVal)) && payload(res0.Value) != nil && res0.Value.(*pb.TypedValue_BoolVal).BoolVal == i.(bool)
+//@   ensures [bytes C19] isa(i.([]byte)) ==> res1 == nil && res0 != nil && isa(res0.Value.(*pb.TypedValue_BytesVal)) && payload(res0.Value) != nil && res0.Value.(*pb.TypedValue_BytesVal).BytesVal == i.([]byte)
+
+// ToScalar: the arm's value as the corresponding Go type.
+//@ func ToScalar
+//@   props C19 C12
+//@   requires AllTVWf() && tv != nil
+//@   ensures [string C19] tv != nil && isa(tv.Value.(*pb.TypedValue_StringVal)) ==> res1 == nil && res0 == box(tv.Value.(*pb.TypedValue_StringVal).StringVal)
+//@   ensures [int C19] tv != nil && isa(tv.Value.(*pb.TypedValue_IntVal)) ==> res1 == nil && res0 == box(tv.Value.(*pb.TypedValue_IntVal).IntVal)
+//@   ensures [uint C19] tv != nil && isa(tv.Value.(*pb.TypedValue_UintVal)) ==> res1 == nil && res0 == box(tv.Value.(*pb.TypedValue_UintVal).UintVal)
+//@   ensures [bool C19] tv != nil && isa(tv.Value.(*pb.TypedValue_BoolVal)) ==> res1 == nil && res0 == box(tv.Value.(*pb.TypedValue_BoolVal).BoolVal)
+//@   ensures [double C19] tv != nil && isa(tv.Value.(*pb.TypedValue_DoubleVal)) ==> res1 == nil && res0 == box(tv.Value.(*pb.TypedValue_DoubleVal).DoubleVal)
+//@   ensures [bytes C19] tv != nil && isa(tv.Value.(*pb.TypedValue_BytesVal)) ==> res1 == nil && res0 == box(tv.Value.(*pb.TypedValue_BytesVal).BytesVal)
